@@ -94,6 +94,46 @@ def deleted_guard(P, f, use_site, use_arg):
     return None
 
 
+def _prefiltered_list_guard(P, f, doc_operand):
+    sl = Slice(f, through_all_calls=True)
+    lists = set()
+    for x in sl.sources(doc_operand):
+        if x[0] == "call" and callee_of(x[2]).endswith(("::into_iter", "::iter", "::drain")):
+            for y in sl.sources(x[2]["args"][0]):
+                pass
+            l = op_local(x[2]["args"][0])
+            seen = set()
+            while l is not None and l not in seen:
+                seen.add(l)
+                if f.locals[l].get("name") and f.local_ty(l).startswith("alloc::vec::Vec<"):
+                    lists.add(l)
+                    break
+                dfs = [d for d in f.defs().get(l, []) if not d["partial"]]
+                if len(dfs) != 1 or dfs[0]["k"] != "assign":
+                    break
+                rv = dfs[0]["rv"]
+                l = op_local(rv["a"]) if rv["k"] in ("use", "cast") else (rv["place"]["l"] if rv["k"] == "ref" else None)
+    if not lists:
+        return None
+    first = None
+    for lst in lists:
+        pushes = []
+        for b, t in f.calls():
+            if callee_of(t).endswith("Vec::<T, A>::push") and t["args"]:
+                rl = op_local(t["args"][0])
+                for d in f.defs().get(rl, []):
+                    if d["k"] == "assign" and d["rv"]["k"] == "ref" and d["rv"].get("mut") and d["rv"]["place"]["l"] == lst:
+                        pushes.append(Site(f, b))
+        if not pushes:
+            return None
+        for ps in pushes:
+            g = deleted_guard(P, f, ps, {"c": {}})
+            if g is None:
+                return None
+            first = first or g
+    return first
+
+
 def _roots(f, sl, operand):
     out = set()
     for s in sl.sources(operand):
@@ -144,6 +184,9 @@ def r04c(ctx, P):
         ctx.saw(f)
         use = Site(f, b)
         g = deleted_guard(P, f, use, t["args"][1])
+        if g is None:
+            # two-phase shape: the document comes out of a local list that is only filled with is_deleted-checked documents
+            g = _prefiltered_list_guard(P, f, t["args"][1])
         ctx.ob(rid, "%s:%s:%s" % (rid, f.short, what), g is not None,
                "%s at %s is preceded by is_deleted at %s (deleted => skipped)" % (what, use.loc(), g.loc()) if g else
                "%s at %s is not guarded by an is_deleted test on the same document: deleted documents can be returned / copied"
